@@ -41,14 +41,26 @@ DAEMON_ASSUME = ("end-to-end stage: the built binary is fed through two real FIF
                  "established by a sentinel session written last (both pipelines are sequential)")
 
 
+def conc_extra(pid, n_quick=5, n_thorough=60):
+    """Concurrent stage: forced single-preemption schedules on the real correlator under the race detector,
+    judged by the property's own oracle on the final outcome."""
+    return [("tracker", TRACKER_OVERLAY, ["-mode", "conc", "-prop", pid, "-n", str(n_thorough)], True,
+             ["-mode", "conc", "-prop", pid, "-n", str(n_quick)])]
+
+
+CONC_ASSUME = ("concurrent stage: the sequential model applies to the daemon because every correlator call is one critical section "
+               "(generated lock table, theorem <ID>_calls_atomic; C03 proves linearizability from it); forced single-preemption schedules "
+               "at the lock and write hooks check the property's oracle on the real correlator's final outcome")
+
+
 def tracker(pid, n_quick=160, n_thorough=3000):
-    extra = daemon_extra(pid) if pid in ("C01", "C02", "C04") else []
+    extra = (conc_extra(pid) + daemon_extra(pid)) if pid in ("C01", "C02", "C04") else []
     reg(Spec(
         pid, "Props/%s.v" % pid, harness="tracker", overlay=TRACKER_OVERLAY,
         args_quick=["-prop", pid, "-n", str(n_quick)],
         args_thorough=["-prop", pid, "-n", str(n_thorough)],
         args_search=["-prop", pid, "-n", "1500"],
-        assumptions=TRACKER_ASSUME + ([DAEMON_ASSUME] if extra else []), modelled=TRACKER_MODELLED,
+        assumptions=TRACKER_ASSUME + ([CONC_ASSUME.replace("<ID>", pid), DAEMON_ASSUME] if extra else []), modelled=TRACKER_MODELLED,
         extra_targets=["Model/TrackerCheck.vo"], thorough_extra=extra,
     ))
 
@@ -115,9 +127,9 @@ for _p in ("C05", "C07"):
 
 reg(Spec(
     "C03", "Props/C03.v", harness="tracker", overlay=TRACKER_OVERLAY, race=True,
-    args_quick=["-mode", "conc", "-n", "14"],
-    args_thorough=["-mode", "conc", "-n", "150"],
-    args_search=["-mode", "conc", "-n", "40"],
+    args_quick=["-mode", "conc", "-prop", "C03", "-n", "14"],
+    args_thorough=["-mode", "conc", "-prop", "C03", "-n", "150"],
+    args_search=["-mode", "conc", "-prop", "C03", "-n", "40"],
     assumptions=TRACKER_ASSUME + [
         "one GenericSyncMap method call = one critical section; nested acquisition (Store(sessions) inside WithLockedValueDo(parked)) is modelled as one block",
         "schedules are forced at the VerifPoint hooks (just before each lock acquisition): exactly the granularity of the model's blocks",
